@@ -320,3 +320,135 @@ DESIGN_REF = "DESIGN.md section 4 (C14)"
 BOUNDS = dict(BOUNDS, m2="verify_rtx: the async fn's coroutine body executed from its initial state; the awaited verify_with_pause future completes (its result is an environment symbol)", m3="15 write methods of StoreTransaction; loops over block parts / cell lists bounded to one item")
 LEVEL_TEXT = LEVEL_TEXT + " m2: the pool's verify_rtx: a cache hit still builds and runs TimeRelativeTransactionVerifier for this transaction/environment and answers the cached entry unchanged, a miss runs the contextual verifier then DaoScriptSizeVerifier (pausable and blocking variants). m3: no write method of StoreTransaction hands the shared read cache to any call (nothing is cached before commit)."
 LEVEL_NOTE = "Partial claim (cache-hit paths of block verification and of the pool's verify_rtx; store write methods never populate the read cache). LRU containers, read-through getters and the relational whole-node statement: outside."
+
+
+def m4_read_through_getters(S):
+    """the read-through getters of `ChainStore` that keep an LRU (block header, proposals, uncles, extension, cell data, cell data hash): the cache consulted is the getter's OWN cache
+    under the REQUESTED key; a hit returns the cached value without touching the database; a miss (or no cache at all) reads the getter's column under the same key and returns the
+    value decoded from exactly those bytes; what is put into the cache is that returned value, under that key, into that same cache -- so with any cache contents that were put by these
+    getters the answer equals the answer of a store without caches"""
+    from mir2smt.srcinfo import field_index
+    ob = "C14.m4"
+    sc = field_index("store/src/cache.rs", "StoreCache")
+    cols = {}
+    src = open(os.path.join(os.environ.get("VERIF_REPO", "/repo"), "db-schema/src/lib.rs")).read()
+    for m_ in re.finditer(r"pub const (COLUMN_\w+): Col = \"(\d+)\";", src):
+        cols[m_.group(1)] = m_.group(2)
+    spec = [("get_block_header", "headers", "COLUMN_BLOCK_HEADER", "hash"), ("get_block_proposal_txs_ids", "block_proposals", "COLUMN_BLOCK_PROPOSAL_IDS", "hash"),
+            ("get_block_uncles", "block_uncles", "COLUMN_BLOCK_UNCLE", "hash"), ("get_block_extension", "block_extensions", "COLUMN_BLOCK_EXTENSION", "hash"),
+            ("get_cell_data", "cell_data", "COLUMN_CELL_DATA", "cell_key(out_point)"), ("get_cell_data_hash", "cell_data_hash", "COLUMN_CELL_DATA_HASH", "cell_key(out_point)")]
+    for short, field, col, keyname in spec:
+        if field not in sc:
+            raise Inconclusive(f"StoreCache has no field {field}")
+        f = [x for x in S.prog.funcs if x.kind == "fn" and x.name == "ChainStore::" + short]
+        if len(f) != 1:
+            raise Inconclusive(f"ChainStore::{short}: {len(f)} candidates")
+        ctx = S.ctx(unwind=6)
+        ctx.uninterpreted_unknown_calls = True
+        has_cache, hit, found, empty = ctx.bool("store_has_a_cache"), ctx.bool("cache_hit"), ctx.bool("row_exists"), ctx.bool("row_is_empty")
+        log = []
+
+        def nmv(ex, v):
+            v = deref(ex, v) if ex is not None else v
+            if isinstance(v, AggV):
+                return "(" + ",".join(nmv(ex, x) for x in v.fields) + ")"
+            if isinstance(v, EnumV) and isinstance(v.disc, int):
+                return ("Some(" + nmv(ex, v.payload(1)[0]) + ")") if v.disc == 1 else "None"
+            if isinstance(v, StrV):
+                return v.s.strip('"')
+            return getattr(v, "name", None) or type(v).__name__
+
+        def colname(ex, v):
+            n = nmv(ex, v)
+            m_ = re.match(r"const\.ckb_db_schema__(COLUMN_\w+)$", n)
+            return cols[m_.group(1)] if m_ else n
+        call = lambda t_: (lambda ex, c, a, d: OpaqueV(t_ + "(" + ",".join(nmv(ex, x) for x in a) + ")", d))
+
+        def lock(ex, c, a, d):
+            return OpaqueV("guard(" + nmv(ex, a[0]) + ")", d)
+
+        def cget(ex, c, a, d, log=log):
+            log.append(("cache_get", nmv(ex, a[0]), nmv(ex, a[1]), list(ex.pc)))
+            return mk_option(hit.t, ex.ctx.ref_to(OpaqueV("cached_value", "?")), d)
+
+        def cput(ex, c, a, d, log=log):
+            log.append(("cache_put", nmv(ex, a[0]), nmv(ex, a[1]), nmv(ex, a[2]), list(ex.pc)))
+            return mk_option(False, None, d)
+
+        def dbget(ex, c, a, d, log=log):
+            log.append(("db_get", colname(ex, a[1]), nmv(ex, a[2]), list(ex.pc)))
+            return mk_option(found.t, OpaqueV("raw", "DBPinnableSlice"), d)
+        from mir2smt.exec import StrV
+
+        def opt_inspect(ex, c, a, d):
+            o = a[0]
+            if not isinstance(o, EnumV):
+                raise Stop("Option::inspect of a non-option")
+            some = o.disc == 1 if isinstance(o.disc, int) else ex.decide(T.eq(o.disc, 1))
+            if some:
+                ex.call_value(ex.top_frame, a[1], [ex.ctx.ref_to(o.payload(1)[0])], "()")
+                return mk_option(True, o.payload(1)[0], d)
+            return mk_option(False, None, d)
+        ctx.env = list(E.LOGGING_OFF) + [
+            (E.rx(r"ChainStore>::cache$"), lambda ex, c, a, d: mk_option(has_cache.t, ex.ctx.ref_to(OpaqueV("cache", "StoreCache")), d)),
+            (E.rx(r"Mutex::<.*LruCache<.*>>::lock$"), lock),
+            (E.rx(r"MutexGuard<'_, .*LruCache<.*>> as Deref(Mut)?>::deref(_mut)?$"), lambda ex, c, a, d: ex.ctx.ref_to(OpaqueV(nmv(ex, a[0]), "LruCache"))),
+            (E.rx(r"LruCache::<.*>::get::<"), cget),
+            (E.rx(r"LruCache::<.*>::put$"), cput),
+            (E.rx(r"ChainStore>::get$"), dbget),
+            (E.rx(r"::to_cell_key$"), call("cell_key")),
+            (E.rx(r"from_slice_should_be_ok$"), call("decode")),
+            (E.rx(r"<\[u8\]>::is_empty$|core::slice::<impl \[u8\]>::is_empty$"), lambda ex, c, a, d: empty),
+            (E.rx(r"Reader(<'_>)?(::<'_>)?::(output_data|output_data_hash|to_entity)$|::to_entity$|as Into<.*>>::into$|as From<.*>>::from$"), lambda ex, c, a, d: OpaqueV(c.split("::")[-1].split(">")[-1] + "(" + nmv(ex, a[0]) + ")", d)),
+            (E.rx(r"Bytes::new$|Byte32>?::zero$|::zero$"), lambda ex, c, a, d: OpaqueV("default_" + ("Bytes" if "Bytes" in c else "Byte32"), d)),
+            (E.rx(r"^Option::<.*>::inspect::<"), opt_inspect),
+            (E.rx(r"as Clone>::clone$"), lambda ex, c, a, d: (OpaqueV(nmv(ex, a[0]), d) if isinstance(deref(ex, a[0]), OpaqueV) else deref(ex, a[0]))),
+            (E.rx(r"::as_slice$|as AsRef<\[u8\]>>::as_ref$|as Deref>::deref$"), lambda ex, c, a, d: OpaqueV(nmv(ex, a[0]), d)),
+        ]
+        arg = ctx.ref_to(OpaqueV("hash" if keyname == "hash" else "out_point", "?"))
+        ps = S.run(ctx, f[0], [ctx.ref_to(OpaqueV("store", "Self")), arg])
+        S.prove(ctx, ob, f"{short}_no_panic", [], T.not_(cond_of(panics(ps))))
+        when = lambda tag: T.or_(*[T.and_(*e[-1]) for e in log if e[0] == tag]) if any(e[0] == tag for e in log) else False
+        want_cache = f"guard(cache.{sc[field]})"
+        gets = {(e[1], e[2]) for e in log if e[0] == "cache_get"}
+        S.prove(ctx, ob, f"{short}_consults_its_own_cache_under_the_requested_key", [], bool(gets == {(want_cache, keyname)}), extra={"note": str(gets)})
+        dbs = {(e[1], e[2]) for e in log if e[0] == "db_get"}
+        S.prove(ctx, ob, f"{short}_reads_its_own_column_under_the_requested_key", [], bool(dbs == {(cols[col], keyname)}), extra={"note": str(dbs)})
+        S.prove(ctx, ob, f"{short}_cache_consulted_iff_there_is_a_cache_and_database_read_iff_no_hit", [], T.and_(T.iff(when("cache_get"), has_cache.t), T.iff(when("db_get"), T.not_(T.and_(has_cache.t, hit.t)))))
+        rs = returns(ps)
+        # answers: per path the returned value's provenance
+        hit_vals = {nmv(None, p.value) for p in rs if any(str(hit.t) == str(c_) for c_ in p.pc)}
+        S.prove(ctx, ob, f"{short}_a_hit_returns_the_cached_value", [], bool(hit_vals and all("cached_value" in v for v in hit_vals)), extra={"note": str(hit_vals)})
+        # miss answers with and without a cache are the same function of the row
+        def answers(with_cache):
+            out = {}
+            for p in rs:
+                pcs = [str(c_) for c_ in p.pc]
+                if with_cache and not (str(has_cache.t) in pcs and str(T.not_(hit.t)) in pcs):
+                    continue
+                if not with_cache and str(T.not_(has_cache.t)) not in pcs:
+                    continue
+                key = tuple(sorted(x for x in pcs if "row_" in x))
+                out[key] = nmv(None, p.value)
+            return out
+        a1, a0 = answers(True), answers(False)
+        S.prove(ctx, ob, f"{short}_a_miss_answers_exactly_like_a_store_without_caches", [], bool(a1 and a1 == a0 and all("cached_value" not in v for v in a1.values())), extra={"note": str(a1)[:300] + " vs " + str(a0)[:300]})
+        S.prove(ctx, ob, f"{short}_an_existing_row_is_decoded_from_the_bytes_read", [], bool(all(("raw" in v) or ("default_" in v) or v == "None" for v in a0.values()) and any("raw" in v for v in a0.values())), extra={"note": str(a0)[:400]})
+        puts = [(e[1], e[2], e[3], e[4]) for e in log if e[0] == "cache_put"]
+        okp = bool(puts) and all(cf == want_cache and k_ == keyname for cf, k_, _, _ in puts)
+        # the value put is the value returned on that path
+        ret_by_pc = {tuple(str(c_) for c_ in p.pc): nmv(None, p.value) for p in rs}
+        same = True
+        for cf, k_, val, pc in puts:
+            full = [v for pcs, v in ret_by_pc.items() if pcs[:len(pc)] == tuple(str(c_) for c_ in pc)]
+            if not full or not all((v == val) or (v == "Some(" + val + ")") for v in full):
+                same = False
+        S.prove(ctx, ob, f"{short}_what_is_cached_is_the_returned_value_under_the_requested_key_in_its_own_cache", [], bool(okp and same), extra={"note": str([(a_, b_, c_) for a_, b_, c_, _ in puts])[:400]})
+        S.prove(ctx, ob, f"{short}_nothing_is_cached_without_a_cache_or_on_a_hit", [], T.implies(when("cache_put"), T.and_(has_cache.t, T.not_(hit.t))))
+
+
+OBLIGATIONS = OBLIGATIONS + [m4_read_through_getters]
+
+# ---- extended claim (session 4)
+LEVEL_TEXT = LEVEL_TEXT + " m4: the store's read-through getters (header, proposals, uncles, extension, cell data, cell data hash) consult their own cache under the requested key, a hit returns the cached value, a miss answers exactly like a store without caches and caches exactly the returned value under that key."
+LEVEL_NOTE = LEVEL_NOTE + ' Read-through getters: one call per getter, cache and database as environment.'
